@@ -224,6 +224,10 @@ class Prover:
         elif i.op == "urem" and i.ops[1]["k"] == "int":
             out.append(A - (int(i.ops[1]["v"]) - 1))
         return out
+    def _is_loop_phi(self, a):
+        i = self.atom_inst(a)
+        return i is not None and i.op == "phi" and i.block.id in self.fn.loops()
+
     def conserved(self):
         """loop headers where an integer phi r and a pointer phi p move in opposite directions by the same amount on every back edge
         (`p += w; remaining -= w`): r + offset(p) keeps its entry value.  Returns {atom: [Lin == 0]}."""
@@ -242,7 +246,7 @@ class Prover:
                     lr = fi.lin({"k": "inst", "v": R.id, "t": R["t"]})
                     if lr.c != 0 or len(lr.t) != 1 or list(lr.t.values()) != [1]: continue
                     ra = next(iter(lr.t))
-                    ok = True; entry = None
+                    ok = True; entry = None; ratio = None; ins = []
                     for incP in P["incoming"]:
                         incR = next((x for x in R["incoming"] if x["b"] == incP["b"]), None)
                         if incR is None: ok = False; break
@@ -251,16 +255,23 @@ class Prover:
                             if r2 == ("pending",): dP = o2                      # computed relative to the phi itself
                             elif r2 == rootP: dP = o2 - offP
                             else: ok = False; break
-                            if dP + (l2 - Lin.atom(ra)) != Lin() or dP == Lin() or pa in dP.atoms() or ra in dP.atoms(): ok = False; break       # p advances by exactly what r loses
+                            dR = l2 - Lin.atom(ra)
+                            if dP == Lin() or pa in dP.atoms() or ra in dP.atoms(): ok = False; break
+                            if dP + dR == Lin(): k = 1                                                  # p advances by exactly what r loses
+                            elif dP.is_const() and dR.is_const() and dR.c and dP.c * dR.c < 0 and dP.c % dR.c == 0: k = -dP.c // dR.c      # `*out++ = ..; remaining--`: one element per count
+                            else: ok = False; break
+                            if ratio is not None and ratio != k: ok = False; break
+                            ratio = k
                             continue
                         if r2 != rootP: ok = False; break
-                        if False: pass
-                        else:
-                            e0 = o2 + l2
-                            if entry is not None and entry != e0: ok = False; break
-                            entry = e0
+                        ins.append((o2, l2))
+                    if not ok or ratio is None or not ins: continue
+                    for (o2, l2) in ins:
+                        e0 = o2 + l2.scale(ratio)
+                        if entry is not None and entry != e0: ok = False; break
+                        entry = e0
                     if not ok or entry is None or pa in entry.atoms() or ra in entry.atoms(): continue
-                    eq = Lin.atom(pa) + Lin.atom(ra) - entry
+                    eq = Lin.atom(pa) + Lin.atom(ra).scale(ratio) - entry
                     out.setdefault(pa, []).append(eq); out.setdefault(ra, []).append(eq)
         return out
 
@@ -320,8 +331,22 @@ class Prover:
             return alts
         if i.op == "phi":
             loops = self.fn.loops()
-            if i.block.id in loops:           # loop-header phi: do not split (induction variable)
-                return None
+            if i.block.id in loops:
+                # a loop-header phi: it is the entry value or the value the back edge brings, each under the facts of its own edge
+                # (a rotated loop tests `i + 1 < n` on the back edge, which bounds the next i directly).  Only tried when every back value
+                # is the phi plus a constant, so that the substituted goal is about the same atom and the back-edge facts can close it.
+                A_ = Lin.atom(a); alts = []
+                for inc in i["incoming"]:
+                    p = self.fn.bmap[inc["b"]]; v = self.fi.lin(inc["v"])
+                    if inc["b"] in loops[i.block.id] and not (v - A_).is_const(): return None
+                    le, _ = self.facts.at_block(p); le2, _ = self.facts.edge_facts(p, i.block)
+                    if inc["b"] in loops[i.block.id]:
+                        # on the back edge only facts that speak about the value being carried over are kept (facts about the old phi
+                        # value belong to the previous iteration and are still true of it, which is what makes this an induction step)
+                        alts.append((v, list(le) + list(le2)))
+                    else: alts.append((v, list(le) + list(le2)))
+                if getattr(self, "_loop_split_depth", 0) >= 2: return None
+                return alts
             alts = []
             for inc in i["incoming"]:
                 p = self.fn.bmap[inc["b"]]
@@ -397,11 +422,15 @@ class Prover:
                 alts = self.split_values(a)
                 if alts is not None:
                     ok = True
+                    lp = self._is_loop_phi(a)
                     for val, extra in alts:
-                        if self.infeasible(facts + extra): continue
+                        # for a loop-header phi the substituted goal speaks about the value of the previous iteration (or the entry value):
+                        # what is known about the current value at this site does not carry over
+                        base_f = [f for f in facts if f.coeff(a) == 0] if lp else facts
+                        if self.infeasible(base_f + extra): continue
                         # an alternative excluded by a disequality known here (x != c on this path, alternative x == c)
-                        if any((nf.subst(a, val)).is_const() and (nf.subst(a, val)).c == 0 for nf in getattr(self, "_ne", []) if nf.coeff(a) != 0): continue
-                        if not self.prove_le0(e.subst(a, val), facts + extra, depth + 1, seen): ok = False; break
+                        if not lp and any((nf.subst(a, val)).is_const() and (nf.subst(a, val)).c == 0 for nf in (getattr(self, "_ne", None) or []) if nf.coeff(a) != 0): continue
+                        if not self.prove_le0(e.subst(a, val), base_f + extra, depth + 1, seen): ok = False; break
                     if ok: return True
                 iu = self.intrinsic_upper(a)
                 if self.rewrite is not None: iu = [self.rewrite(f) for f in iu]        # callee-local facts in the caller's terms (context proofs)
@@ -411,11 +440,13 @@ class Prover:
                 alts = self.split_values(a) if depth < 4 else None
                 if alts is not None:
                     ok = True
+                    lp = self._is_loop_phi(a)
                     for val, extra in alts:
-                        if self.infeasible(facts + extra): continue
-                        if any((nf.subst(a, val)).is_const() and (nf.subst(a, val)).c == 0 for nf in getattr(self, "_ne", []) if nf.coeff(a) != 0): continue
-                        fx = facts + extra; ne0 = getattr(self, "_ne", None)
-                        if ne0:
+                        base_f = [f for f in facts if f.coeff(a) == 0] if lp else facts
+                        if self.infeasible(base_f + extra): continue
+                        if not lp and any((nf.subst(a, val)).is_const() and (nf.subst(a, val)).c == 0 for nf in (getattr(self, "_ne", None) or []) if nf.coeff(a) != 0): continue
+                        fx = base_f + extra; ne0 = getattr(self, "_ne", None)
+                        if ne0 and not lp:
                             from .bounds import trim as _trim
                             self._ne = [nf.subst(a, val) if nf.coeff(a) != 0 else nf for nf in ne0]     # the disequalities speak about this alternative's value now
                             fx = _trim(fx, self._ne)                  # x >= c and x != c on this alternative  =>  x >= c + 1
